@@ -636,6 +636,12 @@ class Metrics:
         else:
             cls.traces[rank][type_] = ([], mem_trace, is_started)
 
+            # The rank may never be iterated over in this collection, so
+            # make sure no rows of an earlier collection survive in the file
+            if not is_started:
+                with open(cls.prefix + "-" + rank + "-" + type_ + ".csv", "w") as f:
+                    f.write("")
+
     @classmethod
     def _writeTrace(cls, rank, type_):
         """Write the trace to the file
